@@ -31,7 +31,7 @@ PROPS = {
         explanation='theorems over all histories (Props.C09: every disclosed key belongs to a retired pair that can never be accepted under again; used keys are queued when their pair retires and the next data message carries the whole queue); Go oracle recomputes the receiving MAC keys of the discloser window from the real DH keys at every outgoing data message and tracks keys used to accept messages until disclosed',
         assumptions=['the MAC key of a pair is identified by the pair (same DH keys within a session)']),
     'C19': dict(
-        module='Props.C19', extra_modules=['Props.C19Api', 'Props.C19Two'], level='proof',
+        module='Props.C19', extra_modules=['Props.C19Api', 'Props.C19Two', 'Props.C19Queues'], level='proof',
         profiles=dict(quick=[('sched', 12, 1), ('mem', 5, 1)], thorough=[('sched', 80, 8), ('life', 150, 4), ('mem', 60, 4)]),
         explanation='theorems over all histories (Props.C19: at most 4 counters and 4 MAC-history entries, reveal queue at most 3 keys per message accepted since the last send and emptied by each send); Go oracle measures counters, MAC history, reveal queue, resend queue, injections and the reveal field of every emitted message along long runs',
         assumptions=['the session-wide constant 3 for the reveal queue is proved for two honest parties over reliable FIFO channels (Props.C19Two); with a peer that moves on to its announced key with every message the queue grows until our next send', 'heap size beyond the modelled lists is not measured here (see C08)']),
@@ -41,9 +41,9 @@ PROPS = {
         explanation='exact decision table of verifyInstanceTags and own-tag generation for all inputs and all randomness (Props.C15); tied to otrv3.go/instance_tags.go by differential runs over the 7x7 tag grid on several message kinds and fragments, before and after binding; Go oracle: foreign/malformed traffic changes nothing and the genuine peer still gets through; ExtractInstanceTags compared with what the sender wrote; whole-Receive theorems (Props.C15Recv): a complete message or fragment with a foreign or malformed tag changes nothing, a bound peer tag is never changed by any Receive, a binding only comes from a well-formed accepted message',
         assumptions=['ExtractInstanceTags is modelled and compared differentially, its theorem is the header round trip only', 'known finding: InitializeInstanceTag accepts a preset tag below 0x100 (test-pinned)']),
     'C16': dict(
-        module='Props.C16', extra_modules=['Props.C16Api'], level='proof',
+        module='Props.C16', extra_modules=['Props.C16Api', 'Props.C16Emit'], level='proof',
         profiles=dict(quick=[('policy', 500, 1)], thorough=[('policy', 4600, 2), ('life', 100, 2)]),
-        explanation='version choice, query/whitespace-tag version extraction for EVERY policy pair and friendly text, stickiness, disabled pass-through and exact plaintext recovery as theorems (Props.C16); tied to version.go/query.go/whitespace.go/send.go/receive.go by differential runs over policy pairs (full 64x64 product in the thorough tier) and offer forms; over all API histories (Props.C16Api): the committed version is always allowed and never replaced, forbidden-version messages change nothing, disabled conversations pass everything through, data messages and the D-H Commit carry the committed version',
+        explanation='version choice, query/whitespace-tag version extraction for EVERY policy pair and friendly text, stickiness, disabled pass-through and exact plaintext recovery as theorems (Props.C16); tied to version.go/query.go/whitespace.go/send.go/receive.go by differential runs over policy pairs (full 64x64 product in the thorough tier) and offer forms; over all API histories (Props.C16Api): the committed version is always allowed and never replaced, forbidden-version messages change nothing, disabled conversations pass everything through, everything any call of any API history hands out that is an armoured OTR message carries the committed, allowed version — key exchange replies, retransmissions and fragments included (Props.C16Emit)',
         assumptions=['plain-text exactness needs the first occurrence of the tag header in text++tag to be at |text| (the 16-byte header has period 15: inherent to the tag format)']),
     'C18': dict(
         module='Props.C18', extra_modules=['Props.C18Api', 'Props.C18Hist'], level='proof',
